@@ -57,6 +57,11 @@ def op_under_test(name: str) -> dict:
     if name == "files_append_raw":
         # a pre-built file written by the user's own writer (no fsync), then registered with append_files()
         return {"kind": "files_append", "tag": "ut", "n": 2, "raw": True}
+    if name == "files_append_raw_twice":
+        # one transaction, TWO append_files() calls; the second file (in a new directory) is created after the first call
+        return {"kind": "files_append", "tag": "ut", "n": 1, "raw": True, "second": {"dir": "p=2"}}
+    if name == "files_append_raw_twice_flat":
+        return {"kind": "files_append", "tag": "ut", "n": 1, "raw": True, "dir": "p=1", "second": {"dir": "p=1", "name": "pre_second"}}
     if name == "files_append_raw_dir":
         return {"kind": "files_append", "tag": "ut", "n": 2, "raw": True, "dir": "p=1"}
     if name == "gc0":
